@@ -542,7 +542,7 @@ package genql
 //@   ensures local args-before-fork[C14]: (execType == "async" || execType == "spin" || execType == "spinasync") && name != "await" && err == nil ==> called(FuncArgReader)
 
 //@ func (*Query).execAndPostProcess
-//@   at-call dynamic assert wait-first[C14]: waited(&query.wg)
+//@   at-call dynamic assert wait-first[C14,C13,C12]: waited(&query.wg)
 
 // ---------------------------------------------------------------------------
 // C12: plain results, order dependence
@@ -920,7 +920,7 @@ package genql
 
 // C08/C09: mix=> flattens to the bottom: what MixArray keeps as it is, is not an array
 //@ func MixArray
-//@   at-call append:item assert what-is-kept-as-it-is-is-not-an-array[C08,C09]: !typeis(appended, []any)
+//@   at-call append@loop0 assert what-is-kept-is-the-element-as-it-is-and-not-an-array[C08,C09]: appended == rangevalue && !typeis(appended, []any)
 
 // C18: UNWIND flattens one level: an element it keeps as it is, is not an array
 //@ func UnwindFunc
@@ -940,7 +940,7 @@ package genql
 // C04: the hash path stands in for `=`: a key is printed the way compare.Compare prints values it compares as text (%v),
 // so that values that compare equal (7 and uint32(7), 9 and "9") fall into one bucket
 //@ func ToCatalog
-//@   at-call Sprintf:reader assert the-key-is-printed-the-way-compare-prints-values[C04]: arg0 == "%v"
+//@   at-call Sprintf:reader assert the-key-is-printed-the-way-compare-prints-values[C04]: arg0 == "%v" && varargs == 1 && vararg0 == callresult(ExecReader, 0)
 
 // C08/C01: a row or an inner result enters the result of exec only inside the row loop, one element at a time
 // (after the filter, or after the recursive run): nothing is copied over wholesale
@@ -981,3 +981,26 @@ package genql
 // C09: a token in quotes is a key, whatever it starts with
 //@ func ParseSelector
 //@   at-call ParseArray assert only-an-unquoted-bracket-opens-an-array-step[C09]: callresult(FindAllString, 0)[rangeindex + 1] == rangevalue
+
+// ---------------------------------------------------------------------------
+// clauses added after the seventh batch of seeded changes
+
+// C02/C12: only what FUSE returns is spliced into the output row. SelectExpr tells it by its type, so Fuse has to be a
+// type of its own: were it an alias, every object-valued column would be taken apart
+//@ distinct-type [C02,C12] Fuse != map[string]any
+
+// C03: HAVING judges the finished row of the group (its grouping columns and `*`), and the row put out is the row it judged
+//@ func ExecGroupBy
+//@   at-call mapstore:current[innerKey] assert the-group-row-has-its-columns-before-having-sees-it[C03]: !iter(ExecHaving)
+//@   at-call mapstore:current["*"] assert the-group-row-has-its-members-before-having-sees-it[C03]: !iter(ExecHaving)
+//@   at-call ExecHaving assert having-is-asked-about-this-query[C03]: arg0 == query
+//@   at-call append:slice, assert a-group-is-put-out-iff-having-holds-for-its-row[C03]: iter(ExecHaving) && callresult(ExecHaving, 0) && appended == any(callarg(ExecHaving, 1))
+
+// C17: each rewrite reads what the step before it left, and the parser reads what the last one left; bracket positions
+// are looked for in the text they are applied to (FindArrayIndex is FixIdiomaticArray's helper and nobody else's)
+//@ callers-of FindArrayIndex [C17]: FixIdiomaticArray
+//@ func New
+//@   at-call DoubleQuotesToBackTick assert the-quote-rewrite-reads-the-query-as-written[C17]: arg0 == query
+//@   at-call FixIdiomaticArray assert the-array-rewrite-reads-what-the-quote-rewrite-left[C17]: (called(DoubleQuotesToBackTick) ==> arg0 == callresult(DoubleQuotesToBackTick, 0)) && (!called(DoubleQuotesToBackTick) ==> arg0 == query)
+//@   at-call Parse assert the-parser-reads-what-the-rewrites-left[C17]: (called(FixIdiomaticArray) ==> arg0 == callresult(FixIdiomaticArray, 0)) && (!called(FixIdiomaticArray) && called(DoubleQuotesToBackTick) ==> arg0 == callresult(DoubleQuotesToBackTick, 0)) && (!called(FixIdiomaticArray) && !called(DoubleQuotesToBackTick) ==> arg0 == query)
+//@   at-call Parse assert an-option-that-is-set-is-applied[C17]: (q.options.postgresEscapingDialect ==> called(DoubleQuotesToBackTick)) && (q.options.idomaticArrays ==> called(FixIdiomaticArray))
